@@ -37,9 +37,9 @@ def run(ctx):
             sub = {"Effects = FALSE": "Effects = TRUE"}
         pre, progs, _ = vm_util.generate(ctx, cfg, subst=sub, timeout=1800)
         runs.append((tag, progs))
-    _, ps, _ = vm_util.generate(ctx, "MC_PolicyLang_sim.cfg", simulate=2000 if ctx.thorough else 150, depth=400)
+    _, ps, _ = vm_util.generate(ctx, "MC_PolicyLang_sim.cfg", simulate=5000 if ctx.thorough else 150, depth=400)
     runs.append(("sim", ps))
-    _, ps, _ = vm_util.generate(ctx, "MC_PolicyLang_fxsim.cfg", simulate=1500 if ctx.thorough else 120, depth=400)
+    _, ps, _ = vm_util.generate(ctx, "MC_PolicyLang_fxsim.cfg", simulate=3000 if ctx.thorough else 120, depth=400)
     runs.append(("fxsim", ps))
     allres = []
     accepted_untyped = 0
